@@ -293,7 +293,7 @@ def gen_plan(prop, r, tier, run):
                     src.setdefault('size_shared', 'S%d' % len(prev))
                     op['size'] = dict(src['size'])
                     op['size_shared'] = src['size_shared']
-            if prop == 'C03' and op['form'] in ('list', 'dict') \
+            if prop in ('C03', 'C14') and op['form'] in ('list', 'dict') \
                     and r.chance(0.15):
                 op['rerun_same_object'] = True
             if op['form'] == 'streams' and prop in ('C03', 'C13') \
@@ -310,13 +310,39 @@ def gen_plan(prop, r, tier, run):
                 bad['expect_raise'] = True
                 bad['stream_key'] = op['stream_key'] = 'R%d' % len(ops)
                 ops.append(bad)
+            seps = '\n\r\x0b\x0c\x1c\x1d\x1e\x85\u2028\u2029'
+            flines = [s for s in op['examples'] if s is not None and s != ''
+                      and not any(c in s for c in seps)]
+            if prop in ('C03', 'C13') and flines and r.chance(0.08) \
+                    and not any(o.get('stream_key') == op.get('stream_key')
+                                for o in ops if op.get('stream_key')):
+                # the `rexpy` command run twice in one process (a wrapper
+                # calling main()): first with flags on some other file,
+                # then plainly on these lines
+                for k in ('freqs', 'split', 'series_dtype', 'stream_key',
+                          'skip_header', 'header', 'io_fault',
+                          'default_encoding', 'rerun_same_object',
+                          'size_shared', 'extra_categories'):
+                    op.pop(k, None)
+                op.update(form='cli', examples=flines, opts={}, size=None,
+                          seed=None, cli_flags=[], out_file='cli1.txt')
+                other = copy.deepcopy(op)
+                other.update(examples=flines[:3], out_file='cli0.txt',
+                             no_check=True,
+                             cli_flags=r.sample(
+                                 ['--header', '-g', '-u', '-q', '--portable',
+                                  '-vlf', '--posix', '--java', '--grep'],
+                                 r.randint(1, 3)))
+                ops.append(other)
             if prop == 'C13':
                 op['tagpair'] = True
                 op['opts'].pop('tag', None)
-                op['tag_by_reextract'] = r.chance(0.25)
+                op['tag_by_reextract'] = r.chance(0.25) \
+                    and op['form'] != 'cli'
             if prop == 'C18':
                 op['cov'] = True
                 op['reextract'] = r.chance(0.3)
+                op['prune_dot_star'] = r.chance(0.15)
                 op['via_copy'] = r.weighted([(6, None), (2, 'deepcopy'),
                                              (2, 'pickle')])
                 if op['form'] == 'series':
@@ -431,6 +457,9 @@ def gen_c14(r, clients):
     ops.append(variant('after_prefix'))
     if r.chance(0.7):
         ops.append(variant('again'))
+        if r.chance(0.2):
+            # ... by running a kept extractor a second time
+            ops[-1]['rerun_same_object'] = True
     ex = tgt['examples']
     if r.chance(0.7):
         p = list(ex)
@@ -819,8 +848,8 @@ def call_extract(ctx, op, tag=None, as_object=False):
             with io.open(inp, 'w', encoding='utf-8', newline='\n') as f:
                 f.write(''.join(x + '\n' for x in ex))
             saved_argv = sys.argv
-            sys.argv = ['rexpy'] + list(op.get('cli_flags') or []) + [inp,
-                                                                     outp]
+            sys.argv = ['rexpy'] + list(op.get('cli_flags') or []) + (
+                ['-g'] if opts.get('tag') else []) + [inp, outp]
             try:
                 rexpy.main()
             finally:
@@ -968,6 +997,13 @@ def run_extract_op(ctx, op):
             if s is not None:
                 kept[s] = kept.get(s, 0) + 1
 
+    if op.get('no_check'):
+        # an earlier, unrelated command in the same process: run, not judged
+        outcome, val, obs = call_extract(ctx, op)
+        ctx.events.append({'i': op['i'], 'op': 'extract',
+                           'variant': 'earlier-command', 'outcome': outcome,
+                           'rex': list(val) if outcome == 'ok' else None})
+        return
     if op.get('tagpair'):
         return run_tagpair(ctx, op, kept)
     if op.get('cov'):
@@ -997,7 +1033,7 @@ def run_failing_call(ctx, op):
 def run_plain(ctx, op, kept):
     prop = ctx.prop
     if op.get('rerun_same_object') and op['form'] in ('list', 'dict') \
-            and prop == 'C03':
+            and prop in ('C03', 'C14'):
         # the caller keeps the extractor and runs it a second time (after
         # looking at the first result, or changing its mind about nothing)
         outcome, val, obs = call_extract(ctx, op, as_object=True)
@@ -1005,9 +1041,25 @@ def run_plain(ctx, op, kept):
             x = val
             try:
                 ctx.simr.begin(op.get('rs'))
-                x.extract()
+                # the application draws some numbers of its own in between
+                for _ in range(3):
+                    random.random()
+                st0 = random.getstate()
+                try:
+                    x.extract()
+                finally:
+                    st1 = random.getstate()
                 val = list(x.results.rex) if x.results else []
                 ctx.stats['probes']['extractor_run_a_second_time'] += 1
+                if prop == 'C14' and op.get('seed') is not None:
+                    ctx.stats['checks']['prng_state_conserved_checks'] += 1
+                    if st0 != st1:
+                        violation(ctx, op, 'prng-state',
+                                  'second-run-of-kept-extractor',
+                                  'global random state differs after '
+                                  'running a seeded extractor a second '
+                                  'time (the generator had advanced since '
+                                  'the extractor was made)')
             except WatchdogTimeout:
                 raise
             except BaseException as e:
@@ -1444,6 +1496,26 @@ def run_cov(ctx, op, kept):
                 ev2 = {}
                 check_round(rex2, crs2, reg + '+reextract', ev2)
                 ev['reextract'] = {'rex': rex2, 'ev': ev2}
+    if op.get('prune_dot_star') and x.results and len(x.results.rex) >= 2 \
+            and not any('\n' in s for s in kept):
+        # the caller drops the last (rarest) expression and lets the
+        # catch-all stand in for it - ResultsSummary.remove(...,
+        # add_dot_star=True) - and then asks for the figures of what is left
+        try:
+            x.results.remove([len(x.results.rex) - 1], add_dot_star=True)
+            rex3 = list(x.results.rex)
+        except WatchdogTimeout:
+            raise
+        except Exception:
+            rex3 = None
+            ctx.stats['abstain']['prune_raised'] += 1
+        if rex3:
+            crs3 = compile_all(rex3)
+            if not any(isinstance(c, Exception) for c in crs3):
+                ctx.stats['probes']['results_pruned_with_catch_all'] += 1
+                ev3 = {}
+                check_round(rex3, crs3, reg + '+pruned', ev3)
+                ev['pruned'] = {'rex': rex3, 'ev': ev3}
     ctx.events.append(ev)
 
 
